@@ -168,18 +168,18 @@ Lemma acq_of_app g a b : acq_of g (a ++ b) = acq_of g a ++ acq_of g b.
 Proof. unfold acq_of. rewrite filter_app, map_app. reflexivity. Qed.
 
 Section Dyn.
-Variable sk : list instr.
+Variable skf : nat -> list instr.
 Variable g : mutex.
 Variable quota : nat -> nat.
 Variable n : nat.
-Hypothesis Hshape : shape g sk = true.
+Hypothesis Hshape : forall t, shape g (skf t) = true.
 Hypothesis Hq : forall t, n <= t -> quota t = 0.
 
-Notation PH s t := (phase_at g sk (pc (th s t))).
+Notation PH s t := (phase_at g (skf t) (pc (th s t))).
 
 Record Inv (s : state) (a : astate) : Prop := {
   i_own : forall t, owner s g = Some t <-> holding (PH s t) = true;
-  i_in : forall t, wph (th s t) <> W0 -> nth_error sk (pc (th s t)) = Some Work;
+  i_in : forall t, wph (th s t) <> W0 -> nth_error (skf t) (pc (th s t)) = Some Work;
   i_cnt : forall t, match wph (th s t) with
                     | W2 tmp => tmp = count s /\ count s = length (log s)
                     | W3 tmp => count s = S tmp /\ tmp = length (log s)
@@ -206,13 +206,13 @@ Proof. destruct p; cbn; congruence. Qed.
 Lemma at_work s a t : Inv s a -> wph (th s t) <> W0 -> PH s t = P1.
 Proof.
   intros I H. pose proof (i_in _ _ I t H) as En. apply work_phase.
-  rewrite <- (phase_S g sk _ _ En). apply phase_ok. exact Hshape.
+  rewrite <- (phase_S g (skf t) _ _ En). apply phase_ok. apply Hshape.
 Qed.
 Lemma hold_unique s a t t' : Inv s a -> holding (PH s t) = true -> holding (PH s t') = true -> t = t'.
 Proof. intros I H1 H2. apply (i_own _ _ I) in H1. apply (i_own _ _ I) in H2. congruence. Qed.
 Lemma w0_dec w : {w = W0} + {w <> W0}.
 Proof. destruct w; [left; reflexivity|right; discriminate..]. Qed.
-Lemma w0_if_not_work s a t : Inv s a -> nth_error sk (pc (th s t)) <> Some Work -> wph (th s t) = W0.
+Lemma w0_if_not_work s a t : Inv s a -> nth_error (skf t) (pc (th s t)) <> Some Work -> wph (th s t) = W0.
 Proof. intros I H. destruct (w0_dec (wph (th s t))) as [E|E]; [exact E|]. exfalso. apply H. apply (i_in _ _ I). exact E. Qed.
 Lemma others_w0 s a t t' : Inv s a -> holding (PH s t) = true -> t' <> t -> wph (th s t') = W0.
 Proof.
@@ -225,7 +225,7 @@ Ltac sp t' t := destruct (Nat.eq_dec t' t) as [->|?Hne];
 
 (* a step of thread t that neither touches g nor the pipeline *)
 Lemma transfer_inv s a t pc' o' acq' :
-  Inv s a -> wph (th s t) = W0 -> phase_at g sk pc' = PH s t -> o' g = owner s g ->
+  Inv s a -> wph (th s t) = W0 -> phase_at g (skf t) pc' = PH s t -> o' g = owner s g ->
   acq_of g acq' = acq_of g (acq s) ->
   Inv {| th := upd (th s) t (mk_t pc' W0 (idx (th s t))); owner := o'; count := count s; log := log s;
          acq := acq'; evs := evs s |} a.
@@ -250,16 +250,16 @@ Proof. intros H. rewrite acq_of_app. unfold acq_of at 2. cbn. destruct (mutex_eq
 Lemma acq_of_same t i l : acq_of g (l ++ [(g, t, i)]) = acq_of g l ++ [(t, i)].
 Proof. rewrite acq_of_app. unfold acq_of at 2. cbn. destruct (mutex_eqb_spec g g); [|contradiction]. reflexivity. Qed.
 
-Lemma step_inv s a t s' : Inv s a -> step sk quota s t = Some s' -> exists a', Inv s' a'.
+Lemma step_inv s a t s' : Inv s a -> step skf quota s t = Some s' -> exists a', Inv s' a'.
 Proof.
   intros I H. pose proof I as [I1 I2 I3 I4 I5 I6 I7 I8 I9 I10 I11 I12].
   unfold step in H. destruct (Nat.leb_spec (quota t) (idx (th s t))) as [|Hlt]; [discriminate|].
   assert (Htn : t < n). { destruct (Nat.lt_ge_cases t n) as [|Hge]; [assumption|]. rewrite (Hq t Hge) in Hlt. lia. }
-  destruct (nth_error sk (pc (th s t))) as [i|] eqn:En.
+  destruct (nth_error (skf t) (pc (th s t))) as [i|] eqn:En.
   2:{ (* the call returns *)
     injection H as <-. exists a.
     assert (Hw : wph (th s t) = W0) by (apply (w0_if_not_work s a t I); congruence).
-    pose proof (phase_end g sk _ Hshape En) as Hp.
+    pose proof (phase_end g (skf t) _ (Hshape t) En) as Hp.
     constructor; cbn [th owner count log acq evs]; try assumption.
     - intros t'. sp t' t; [|apply I1]. rewrite phase_0. cbn. rewrite I1, Hp. cbn. tauto.
     - intros t'. sp t' t; [congruence|apply I2].
@@ -270,8 +270,8 @@ Proof.
     - intros t'. sp t' t; [|apply I9]. rewrite I9, Hp, phase_0. cbn. lia.
     - intros H. apply I11. intros t'. specialize (H t'). sp t' t; [rewrite Hp; discriminate|exact H].
     - intros t' H. sp t' t; [rewrite phase_0 in H; discriminate|apply I12; exact H]. }
-  pose proof (phase_S g sk _ _ En) as HS.
-  pose proof (phase_ok g sk Hshape (S (pc (th s t)))) as Hok. rewrite HS in Hok.
+  pose proof (phase_S g (skf t) _ _ En) as HS.
+  pose proof (phase_ok g (skf t) (Hshape t) (S (pc (th s t)))) as Hok. rewrite HS in Hok.
   destruct i as [m|m| | |].
   - (* Lock m *)
     destruct (owner s m) eqn:Eo; [discriminate|]. injection H as <-. exists a.
@@ -285,7 +285,7 @@ Proof.
     { intros t'. destruct (holding (PH s t')) eqn:E; [|reflexivity]. apply I1 in E. congruence. }
     assert (Hp0 : PH s t = P0).
     { cbn in Hok. destruct (mutex_eqb_spec g g); [|contradiction]. destruct (PH s t); congruence. }
-    assert (Hp1 : phase_at g sk (S (pc (th s t))) = P1).
+    assert (Hp1 : phase_at g (skf t) (S (pc (th s t))) = P1).
     { rewrite HS, Hp0. cbn. destruct (mutex_eqb_spec g g); [reflexivity|contradiction]. }
     constructor; cbn [th owner count log acq evs]; try assumption.
     + intros t'. rewrite updm_same. sp t' t; [rewrite Hp1; cbn; tauto|].
@@ -310,7 +310,7 @@ Proof.
         - apply updm_other. congruence. }
     assert (Hp2 : PH s t = P2).
     { cbn in Hok. destruct (mutex_eqb_spec g g); [|contradiction]. destruct (PH s t); congruence. }
-    assert (Hp3 : phase_at g sk (S (pc (th s t))) = P3).
+    assert (Hp3 : phase_at g (skf t) (S (pc (th s t))) = P3).
     { rewrite HS, Hp2. cbn. destruct (mutex_eqb_spec g g); [reflexivity|contradiction]. }
     assert (Hhold : holding (PH s t) = true) by (rewrite Hp2; reflexivity).
     constructor; cbn [th owner count log acq evs]; try assumption.
@@ -381,7 +381,7 @@ Proof.
       injection H as <-.
       assert (Hin : wph (th s t) <> W0) by (rewrite Ew; discriminate).
       pose proof (I3 t) as Hc. rewrite Ew in Hc. destruct Hc as [Hc1 Hc2].
-      assert (Hp2 : phase_at g sk (S (pc (th s t))) = P2) by (rewrite HS, Hp1; reflexivity).
+      assert (Hp2 : phase_at g (skf t) (S (pc (th s t))) = P2) by (rewrite HS, Hp1; reflexivity).
       exists {| a_in := None; a_cnt := S (a_cnt a); a_next := upd (a_next a) t (S (idx (th s t))) |}.
       constructor; cbn [th owner count log acq evs a_in a_cnt a_next]; try assumption.
       * intros t'. sp t' t; [|apply I1]. rewrite Hp2. rewrite I1, Hp1. cbn. tauto.
@@ -408,13 +408,13 @@ Proof.
     apply transfer_inv; try assumption; try reflexivity; try (rewrite HS; reflexivity).
 Qed.
 
-Theorem run_inv sched : forall s a, Inv s a -> exists a', Inv (run sk quota s sched) a'.
+Theorem run_inv sched : forall s a, Inv s a -> exists a', Inv (run skf quota s sched) a'.
 Proof.
   induction sched as [|t r IH]; intros s a I; cbn [run]; [exists a; exact I|].
-  destruct (step sk quota s t) as [s'|] eqn:E; [|eapply IH; exact I].
+  destruct (step skf quota s t) as [s'|] eqn:E; [|eapply IH; exact I].
   destruct (step_inv s a t s' I E) as [a' I']. eapply IH; exact I'.
 Qed.
-Definition reach (s : state) : Prop := exists sched, s = run sk quota s0 sched.
+Definition reach (s : state) : Prop := exists sched, s = run skf quota s0 sched.
 Lemma reach_inv s : reach s -> exists a, Inv s a.
 Proof. intros [sched ->]. apply (run_inv sched s0 a0 s0_inv). Qed.
 
@@ -447,19 +447,19 @@ Proof.
   intros _ [sched ->]. revert t. 
   assert (G : forall sched s, (forall t, idx (th s t) = quota t -> pc (th s t) = 0 /\ wph (th s t) = W0) ->
              (forall t, idx (th s t) <= quota t) ->
-             forall t, idx (th (run sk quota s sched) t) = quota t ->
-                       pc (th (run sk quota s sched) t) = 0 /\ wph (th (run sk quota s sched) t) = W0).
+             forall t, idx (th (run skf quota s sched) t) = quota t ->
+                       pc (th (run skf quota s sched) t) = 0 /\ wph (th (run skf quota s sched) t) = W0).
   { clear. induction sched as [|u r IH]; intros s H Hle t; cbn [run]; [apply H|].
-    destruct (step sk quota s u) as [s'|] eqn:E; [|apply IH; assumption].
+    destruct (step skf quota s u) as [s'|] eqn:E; [|apply IH; assumption].
     apply IH; clear IH.
     - intros t' Ht'. unfold step in E. destruct (Nat.leb_spec (quota u) (idx (th s u))) as [|Hlt]; [discriminate|].
-      destruct (nth_error sk (pc (th s u))) as [[m|m| | |]|];
+      destruct (nth_error (skf u) (pc (th s u))) as [[m|m| | |]|];
         [destruct (owner s m); [discriminate|]|destruct (owner s m) as [o|]; [destruct (Nat.eqb o u); [|discriminate]|discriminate]
         |destruct (wph (th s u))| | |]; injection E as <-; cbn [th] in *;
         (destruct (Nat.eq_dec t' u) as [->|Hne]; [rewrite upd_same in *; cbn [idx pc wph mk_t] in *; try lia; split; reflexivity
                                                  |rewrite upd_other in * by assumption; apply H; exact Ht']).
     - intros t'. unfold step in E. destruct (Nat.leb_spec (quota u) (idx (th s u))) as [|Hlt]; [discriminate|].
-      destruct (nth_error sk (pc (th s u))) as [[m|m| | |]|];
+      destruct (nth_error (skf u) (pc (th s u))) as [[m|m| | |]|];
         [destruct (owner s m); [discriminate|]|destruct (owner s m) as [o|]; [destruct (Nat.eqb o u); [|discriminate]|discriminate]
         |destruct (wph (th s u))| | |]; injection E as <-; cbn [th] in *;
         (destruct (Nat.eq_dec t' u) as [->|Hne]; [rewrite upd_same; cbn [idx mk_t]; lia|rewrite upd_other by assumption; apply Hle]). }
@@ -505,12 +505,12 @@ Proof.
     assert (pc (th s t) = 0) as Ep.
     { destruct (finished_quiet s a t I R) as [Ep _]; [|exact Ep].
       destruct R as [sched ->]. clear -Hq Hg. 
-      assert (G : forall sched s, idx (th s t) = 0 -> idx (th (run sk quota s sched) t) = 0).
+      assert (G : forall sched s, idx (th s t) = 0 -> idx (th (run skf quota s sched) t) = 0).
       { clear -Hq Hg. induction sched as [|u r IH]; intros s H; cbn [run]; [exact H|].
-        destruct (step sk quota s u) as [s'|] eqn:E; [|apply IH; exact H]. apply IH.
+        destruct (step skf quota s u) as [s'|] eqn:E; [|apply IH; exact H]. apply IH.
         unfold step in E. destruct (Nat.leb_spec (quota u) (idx (th s u))) as [|Hlt]; [discriminate|].
         assert (u <> t) by (intros ->; rewrite (Hq t Hg) in Hlt; lia).
-        destruct (nth_error sk (pc (th s u))) as [[m|m| | |]|];
+        destruct (nth_error (skf u) (pc (th s u))) as [[m|m| | |]|];
         [destruct (owner s m); [discriminate|]|destruct (owner s m) as [o|]; [destruct (Nat.eqb o u); [|discriminate]|discriminate]
         |destruct (wph (th s u))| | |]; injection E as <-; cbn [th]; rewrite upd_other by congruence; exact H. }
       rewrite (Hq t Hg). apply G. reflexivity. }
@@ -521,40 +521,50 @@ End Dyn.
 (* ------------------------------------------------------------------ Part 4: statements for every bracketed skeleton *)
 Definition threads_below (n : nat) (quota : nat -> nat) : Prop := forall t, n <= t -> quota t = 0.
 
+(* the threads of a run may enter through different skeletons [skf t]; what the theorems need is ONE mutex that brackets
+   every one of them *)
+Definition guard_of (skf : nat -> list instr) : Prop := exists g, forall t, shape g (skf t) = true.
 Lemma bracketed_guard sk : bracketed sk = true -> exists g, shape g sk = true.
 Proof. unfold bracketed. intros H. apply orb_prop in H as [H|H]; [exists L|exists M]; exact H. Qed.
-
-Theorem mutual_exclusion sk quota n : bracketed sk = true -> threads_below n quota ->
-  forall sched t1 t2, inside (run sk quota s0 sched) t1 = true -> inside (run sk quota s0 sched) t2 = true -> t1 = t2.
+Lemma uni_guard sk : bracketed sk = true -> guard_of (uni sk).
+Proof. intros B. destruct (bracketed_guard sk B) as [g H]. exists g. intros t. exact H. Qed.
+Lemma fam_guard sks skf : bracketed_family sks = true -> (forall t, In (skf t) sks) -> guard_of skf.
 Proof.
-  intros B Hq sched t1 t2. destruct (bracketed_guard sk B) as [g Hs].
-  apply (mutual_exclusion_g sk g quota n Hs Hq). exists sched. reflexivity.
+  unfold bracketed_family. intros H A. apply orb_prop in H as [H|H]; [exists L|exists M]; intros t;
+    rewrite forallb_forall in H; apply H; apply A.
 Qed.
 
-Theorem trace_accepted sk quota n : bracketed sk = true -> threads_below n quota ->
-  forall sched, let s := run sk quota s0 sched in
+Theorem mutual_exclusion skf quota n : guard_of skf -> threads_below n quota ->
+  forall sched t1 t2, inside (run skf quota s0 sched) t1 = true -> inside (run skf quota s0 sched) t2 = true -> t1 = t2.
+Proof.
+  intros B Hq sched t1 t2. destruct B as [g Hs].
+  apply (mutual_exclusion_g skf g quota n Hs Hq). exists sched. reflexivity.
+Qed.
+
+Theorem trace_accepted skf quota n : guard_of skf -> threads_below n quota ->
+  forall sched, let s := run skf quota s0 sched in
   (exists a, arun quota n a0 (evs s) = Some a) /\ log s = delivs (evs s) /\
   (finishedb n quota s = true -> accept_conc quota n (evs s) = true).
 Proof.
-  intros B Hq sched s. destruct (bracketed_guard sk B) as [g Hs].
-  assert (R : reach sk quota s) by (exists sched; reflexivity).
-  destruct (trace_accepted_prefix sk g quota n Hs Hq s R) as (a & Ha & Hl).
-  split; [exists a; exact Ha|]. split; [exact Hl|]. apply (complete_trace_accepted sk g quota n Hs Hq s R).
+  intros B Hq sched s. destruct B as [g Hs].
+  assert (R : reach skf quota s) by (exists sched; reflexivity).
+  destruct (trace_accepted_prefix skf g quota n Hs Hq s R) as (a & Ha & Hl).
+  split; [exists a; exact Ha|]. split; [exact Hl|]. apply (complete_trace_accepted skf g quota n Hs Hq s R).
 Qed.
 
-Theorem serialisable sk quota n : bracketed sk = true -> threads_below n quota ->
-  forall sched, let s := run sk quota s0 sched in finishedb n quota s = true ->
-  exists g, shape g sk = true /\ log s = serial_log (acq_of g (acq s)).
+Theorem serialisable skf quota n : guard_of skf -> threads_below n quota ->
+  forall sched, let s := run skf quota s0 sched in finishedb n quota s = true ->
+  exists g, (forall t, shape g (skf t) = true) /\ log s = serial_log (acq_of g (acq s)).
 Proof.
-  intros B Hq sched s F. destruct (bracketed_guard sk B) as [g Hs]. exists g. split; [exact Hs|].
-  apply (serialisable_g sk g quota n Hs Hq s); [exists sched; reflexivity|exact F].
+  intros B Hq sched s F. destruct B as [g Hs]. exists g. split; [exact Hs|].
+  apply (serialisable_g skf g quota n Hs Hq s); [exists sched; reflexivity|exact F].
 Qed.
 
 (* sequence numbers along the sink log are 0,1,2,... at every moment of every run *)
-Theorem seq_consecutive sk quota n : bracketed sk = true -> threads_below n quota ->
-  forall sched, let s := run sk quota s0 sched in map e_seq (log s) = seq 0 (length (log s)).
+Theorem seq_consecutive skf quota n : guard_of skf -> threads_below n quota ->
+  forall sched, let s := run skf quota s0 sched in map e_seq (log s) = seq 0 (length (log s)).
 Proof.
-  intros B Hq sched s. destruct (trace_accepted sk quota n B Hq sched) as ([a Ha] & Hl & _). fold s in Ha, Hl.
+  intros B Hq sched s. destruct (trace_accepted skf quota n B Hq sched) as ([a Ha] & Hl & _). fold s in Ha, Hl.
   pose proof (arun_ainv quota n _ [] a0 a (a0_ainv quota n) Ha) as V. cbn [app] in V.
   pose proof (v_seq _ _ _ _ V) as E. rewrite <- Hl in E.
   assert (Len : length (log s) = a_cnt a) by (rewrite <- (map_length e_seq), E, seq_length; reflexivity).
@@ -562,27 +572,27 @@ Proof.
 Qed.
 
 (* in a complete run thread t's messages reach the sink exactly once each, in the order t logged them *)
-Theorem per_thread_order sk quota n : bracketed sk = true -> threads_below n quota ->
-  forall sched, let s := run sk quota s0 sched in finishedb n quota s = true ->
+Theorem per_thread_order skf quota n : guard_of skf -> threads_below n quota ->
+  forall sched, let s := run skf quota s0 sched in finishedb n quota s = true ->
   forall t, map e_idx (of_thread t (log s)) = seq 0 (quota t).
 Proof.
-  intros B Hq sched s F t. destruct (trace_accepted sk quota n B Hq sched) as (_ & Hl & Acc). fold s in Hl, Acc.
+  intros B Hq sched s F t. destruct (trace_accepted skf quota n B Hq sched) as (_ & Hl & Acc). fold s in Hl, Acc.
   rewrite Hl, (accept_per_thread quota n _ (Acc F) t).
   destruct (Nat.ltb_spec t n); [reflexivity|]. rewrite (Hq t) by assumption. reflexivity.
 Qed.
-Theorem exactly_once sk quota n : bracketed sk = true -> threads_below n quota ->
-  forall sched, let s := run sk quota s0 sched in finishedb n quota s = true ->
+Theorem exactly_once skf quota n : guard_of skf -> threads_below n quota ->
+  forall sched, let s := run skf quota s0 sched in finishedb n quota s = true ->
   forall t i, count_occ Nat.eq_dec (map e_idx (of_thread t (log s))) i = if Nat.ltb i (quota t) then 1 else 0.
-Proof. intros B Hq sched s F t i. unfold s in *. rewrite (per_thread_order sk quota n B Hq sched F t). apply count_seq. Qed.
+Proof. intros B Hq sched s F t i. unfold s in *. rewrite (per_thread_order skf quota n B Hq sched F t). apply count_seq. Qed.
 
 (* while no thread is between the write-back of the counter and the delivery, the counter equals the number
    of deliveries: no update of SeqNumberAttr::m_count is ever lost *)
-Theorem no_lost_update sk quota n : bracketed sk = true -> threads_below n quota ->
-  forall sched, let s := run sk quota s0 sched in
+Theorem no_lost_update skf quota n : guard_of skf -> threads_below n quota ->
+  forall sched, let s := run skf quota s0 sched in
   (forall t, inside s t = false) -> count s = length (log s).
 Proof.
-  intros B Hq sched s H. destruct (bracketed_guard sk B) as [g Hs].
-  destruct (reach_inv sk g quota n Hs Hq s) as [a I]; [exists sched; reflexivity|].
+  intros B Hq sched s H. destruct B as [g Hs].
+  destruct (reach_inv skf g quota n Hs Hq s) as [a I]; [exists sched; reflexivity|].
   apply (i_cnt0 _ _ _ _ _ _ I). intros t. specialize (H t). unfold inside in H. destruct (wph (th s t)); try discriminate; exact Logic.I.
 Qed.
 
@@ -607,30 +617,30 @@ Proof.
 Qed.
 
 (* ------------------------------------------------------------------ Part 5: sequential schedules realise every accepted trace *)
-Lemma run_app sk quota : forall a b s, run sk quota s (a ++ b) = run sk quota (run sk quota s a) b.
-Proof. induction a as [|t a IH]; intros b s; cbn [run app]; [reflexivity|]. destruct (step sk quota s t); apply IH. Qed.
-Lemma run_cons sk quota s t r s1 : step sk quota s t = Some s1 -> run sk quota s (t :: r) = run sk quota s1 r.
+Lemma run_app skf quota : forall a b s, run skf quota s (a ++ b) = run skf quota (run skf quota s a) b.
+Proof. induction a as [|t a IH]; intros b s; cbn [run app]; [reflexivity|]. destruct (step skf quota s t); apply IH. Qed.
+Lemma run_cons skf quota s t r s1 : step skf quota s t = Some s1 -> run skf quota s (t :: r) = run skf quota s1 r.
 Proof. intros H. cbn [run]. rewrite H. reflexivity. Qed.
 Definition owns (s : state) (t : nat) (hl hm : bool) : Prop :=
   owner s L = (if hl then Some t else None) /\ owner s M = (if hm then Some t else None).
 Definition emits (p : phase) : bool := match p with P0 | P1 => true | _ => false end.
 
 Section Solo.
-Variable sk : list instr.
+Variable skf : nat -> list instr.
 Variable g : mutex.
 Variable quota : nat -> nat.
-Hypothesis Hshape : shape g sk = true.
+Hypothesis Hshape : forall t, shape g (skf t) = true.
 
 Lemma fold_not_err rest p : fold_left (next g) rest p = P3 -> p <> PErr.
 Proof. intros H E. rewrite E, fold_err in H. discriminate. Qed.
 
 Lemma solo_suffix t : forall rest pre s hl hm,
-  sk = pre ++ rest -> pc (th s t) = length pre -> wph (th s t) = W0 -> idx (th s t) < quota t ->
+  skf t = pre ++ rest -> pc (th s t) = length pre -> wph (th s t) = W0 -> idx (th s t) < quota t ->
   owns s t hl hm -> wf_from rest hl hm = true ->
-  fold_left (next g) rest (phase_at g sk (length pre)) = P3 ->
-  let p := phase_at g sk (length pre) in
-  let s' := run sk quota s (repeat t (length rest + (if emits p then 3 else 0))) in
-  pc (th s' t) = length sk /\ wph (th s' t) = W0 /\ idx (th s' t) = idx (th s t) /\ owns s' t false false /\
+  fold_left (next g) rest (phase_at g (skf t) (length pre)) = P3 ->
+  let p := phase_at g (skf t) (length pre) in
+  let s' := run skf quota s (repeat t (length rest + (if emits p then 3 else 0))) in
+  pc (th s' t) = length (skf t) /\ wph (th s' t) = W0 /\ idx (th s' t) = idx (th s t) /\ owns s' t false false /\
   (forall t', t' <> t -> th s' t' = th s t') /\
   (if emits p then log s' = log s ++ [(t, idx (th s t), count s)] /\ count s' = S (count s) /\
                    evs s' = evs s ++ [EEnter t (idx (th s t)); EDeliver t (idx (th s t)) (count s)]
@@ -640,11 +650,11 @@ Proof.
   - subst p s'. cbn [fold_left] in Hfold. rewrite Hfold. cbn [emits length Nat.add repeat run].
     cbn in Hwf. apply andb_prop in Hwf as [H1 H2]. destruct hl, hm; try discriminate.
     rewrite Esk, app_nil_r. destruct Hown as [O1 O2]. repeat split; auto.
-  - assert (Hnth : nth_error sk (pc (th s t)) = Some i).
+  - assert (Hnth : nth_error (skf t) (pc (th s t)) = Some i).
     { rewrite Hpc, Esk, nth_error_app2 by lia. rewrite Nat.sub_diag. reflexivity. }
-    assert (Esk' : sk = (pre ++ [i]) ++ rest) by (rewrite <- app_assoc; exact Esk).
+    assert (Esk' : skf t = (pre ++ [i]) ++ rest) by (rewrite <- app_assoc; exact Esk).
     assert (Hlen : length (pre ++ [i]) = S (length pre)) by (rewrite app_length; cbn; lia).
-    pose proof (phase_S g sk _ _ Hnth) as HS. rewrite Hpc in HS.
+    pose proof (phase_S g (skf t) _ _ Hnth) as HS. rewrite Hpc in HS.
     cbn [fold_left] in Hfold. rewrite <- HS in Hfold.
     pose proof (fold_not_err _ _ Hfold) as Hne. rewrite HS in Hne.
     pose proof Hfold as Hfold'. rewrite HS in Hfold'.
@@ -652,18 +662,18 @@ Proof.
     destruct Hown as [HoL HoM].
     (* a plain step: advances pc, keeps the handler state *)
     assert (Plain : forall (o' : mutex -> option nat) (acq' : list (mutex * nat * nat)),
-      step sk quota s t = Some {| th := upd (th s) t (mk_t (S (pc (th s t))) W0 (idx (th s t))); owner := o'; count := count s;
+      step skf quota s t = Some {| th := upd (th s) t (mk_t (S (pc (th s t))) W0 (idx (th s t))); owner := o'; count := count s;
                                   log := log s; acq := acq'; evs := evs s |} ->
       forall (hl' hm' : bool), o' L = (if hl' then Some t else None) -> o' M = (if hm' then Some t else None) ->
       wf_from rest hl' hm' = true -> emits (next g p i) = emits p ->
-      let s' := run sk quota s (repeat t (length (i :: rest) + (if emits p then 3 else 0))) in
-      pc (th s' t) = length sk /\ wph (th s' t) = W0 /\ idx (th s' t) = idx (th s t) /\ owns s' t false false /\
+      let s' := run skf quota s (repeat t (length (i :: rest) + (if emits p then 3 else 0))) in
+      pc (th s' t) = length (skf t) /\ wph (th s' t) = W0 /\ idx (th s' t) = idx (th s t) /\ owns s' t false false /\
       (forall t', t' <> t -> th s' t' = th s t') /\
       (if emits p then log s' = log s ++ [(t, idx (th s t), count s)] /\ count s' = S (count s) /\
                        evs s' = evs s ++ [EEnter t (idx (th s t)); EDeliver t (idx (th s t)) (count s)]
        else log s' = log s /\ count s' = count s /\ evs s' = evs s)).
     { intros o' acq' Hstep hl' hm' H1 H2 Hwf' Hem s1. subst s1. cbn [length Nat.add repeat]. rewrite (run_cons _ _ _ _ _ _ Hstep).
-      match goal with |- context [run sk quota ?S1 _] => set (s1 := S1) end.
+      match goal with |- context [run skf quota ?S1 _] => set (s1 := S1) end.
       specialize (IH (pre ++ [i]) s1 hl' hm' Esk').
       rewrite Hlen, HS in IH. cbv zeta in IH. fold p in IH. rewrite Hem in IH.
       assert (T1 : th s1 t = mk_t (S (pc (th s t))) W0 (idx (th s t))) by (unfold s1; cbn [th]; apply upd_same).
@@ -672,7 +682,7 @@ Proof.
       destruct (IH ltac:(lia) eq_refl Hlt (conj H1 H2) Hwf' Hfold') as (A & B & C & D & E & F).
       split; [exact A|]. split; [exact B|]. split; [exact C|]. split; [exact D|]. split; [|exact F].
       intros t' Ht'. rewrite (E t' Ht'). unfold s1. cbn [th]. apply upd_other. exact Ht'. }
-    subst p s'. set (p := phase_at g sk (length pre)) in *.
+    subst p s'. set (p := phase_at g (skf t) (length pre)) in *.
     destruct i as [m|m| | |].
     + (* Lock m *)
       assert (Hfree : owner s m = None /\ (if mutex_eqb m L then negb hl else negb hm) = true /\
@@ -704,26 +714,26 @@ Proof.
       replace (length (Work :: rest) + 3) with (4 + (length rest + 0)) by (cbn; lia).
       cbn [repeat Nat.add].
       set (ts := th s t) in *.
-      assert (S1 : step sk quota s t = Some {| th := upd (th s) t (mk_t (pc ts) W1 (idx ts)); owner := owner s; count := count s;
+      assert (S1 : step skf quota s t = Some {| th := upd (th s) t (mk_t (pc ts) W1 (idx ts)); owner := owner s; count := count s;
                       log := log s; acq := acq s; evs := evs s ++ [EEnter t (idx ts)] |}).
       { unfold step. fold ts. rewrite Hq, Hnth, Hw. reflexivity. }
-      rewrite (run_cons _ _ _ _ _ _ S1). match goal with |- context [run sk quota ?X _] => set (s1 := X) end.
+      rewrite (run_cons _ _ _ _ _ _ S1). match goal with |- context [run skf quota ?X _] => set (s1 := X) end.
       assert (T1 : th s1 t = mk_t (pc ts) W1 (idx ts)) by (unfold s1; cbn [th]; apply upd_same).
-      assert (S2 : step sk quota s1 t = Some {| th := upd (th s1) t (mk_t (pc ts) (W2 (count s)) (idx ts)); owner := owner s; count := count s;
+      assert (S2 : step skf quota s1 t = Some {| th := upd (th s1) t (mk_t (pc ts) (W2 (count s)) (idx ts)); owner := owner s; count := count s;
                       log := log s; acq := acq s; evs := evs s ++ [EEnter t (idx ts)] |}).
       { unfold step. rewrite T1. cbn [pc wph idx mk_t]. rewrite Hq, Hnth. reflexivity. }
-      rewrite (run_cons _ _ _ _ _ _ S2). match goal with |- context [run sk quota ?X _] => set (s2 := X) end.
+      rewrite (run_cons _ _ _ _ _ _ S2). match goal with |- context [run skf quota ?X _] => set (s2 := X) end.
       assert (T2 : th s2 t = mk_t (pc ts) (W2 (count s)) (idx ts)) by (unfold s2; cbn [th]; apply upd_same).
-      assert (S3 : step sk quota s2 t = Some {| th := upd (th s2) t (mk_t (pc ts) (W3 (count s)) (idx ts)); owner := owner s; count := S (count s);
+      assert (S3 : step skf quota s2 t = Some {| th := upd (th s2) t (mk_t (pc ts) (W3 (count s)) (idx ts)); owner := owner s; count := S (count s);
                       log := log s; acq := acq s; evs := evs s ++ [EEnter t (idx ts)] |}).
       { unfold step. rewrite T2. cbn [pc wph idx mk_t]. rewrite Hq, Hnth. reflexivity. }
-      rewrite (run_cons _ _ _ _ _ _ S3). match goal with |- context [run sk quota ?X _] => set (s3 := X) end.
+      rewrite (run_cons _ _ _ _ _ _ S3). match goal with |- context [run skf quota ?X _] => set (s3 := X) end.
       assert (T3 : th s3 t = mk_t (pc ts) (W3 (count s)) (idx ts)) by (unfold s3; cbn [th]; apply upd_same).
-      assert (S4 : step sk quota s3 t = Some {| th := upd (th s3) t (mk_t (S (pc ts)) W0 (idx ts)); owner := owner s; count := S (count s);
+      assert (S4 : step skf quota s3 t = Some {| th := upd (th s3) t (mk_t (S (pc ts)) W0 (idx ts)); owner := owner s; count := S (count s);
                       log := log s ++ [(t, idx ts, count s)]; acq := acq s;
                       evs := (evs s ++ [EEnter t (idx ts)]) ++ [EDeliver t (idx ts) (count s)] |}).
       { unfold step. rewrite T3. cbn [pc wph idx mk_t]. rewrite Hq, Hnth. reflexivity. }
-      rewrite (run_cons _ _ _ _ _ _ S4). match goal with |- context [run sk quota ?X _] => set (s4 := X) end.
+      rewrite (run_cons _ _ _ _ _ _ S4). match goal with |- context [run skf quota ?X _] => set (s4 := X) end.
       assert (T4 : th s4 t = mk_t (S (pc ts)) W0 (idx ts)) by (unfold s4; cbn [th]; apply upd_same).
       specialize (IH (pre ++ [Work]) s4 hl hm Esk'). rewrite Hlen, HS in IH. cbv zeta in IH. cbn [emits] in IH.
       rewrite T4 in IH. cbn [pc wph idx mk_t] in IH.
@@ -747,34 +757,34 @@ Definition quiet (s : state) : Prop :=
 Lemma s0_quiet : quiet s0. Proof. repeat split. Qed.
 
 Section Realise.
-Variable sk : list instr.
+Variable skf : nat -> list instr.
 Variable g : mutex.
 Variable quota : nat -> nat.
 Variable n : nat.
-Hypothesis Hshape : shape g sk = true.
-Hypothesis Hsolo : solo_ok sk = true.
+Hypothesis Hshape : forall t, shape g (skf t) = true.
+Hypothesis Hsolo : forall t, solo_ok (skf t) = true.
 
-Lemma shape_fold : fold_left (next g) sk P0 = P3.
-Proof. unfold shape in Hshape. destruct (fold_left (next g) sk P0); try discriminate. reflexivity. Qed.
+Lemma shape_fold t : fold_left (next g) (skf t) P0 = P3.
+Proof. pose proof (Hshape t) as H. unfold shape in H. destruct (fold_left (next g) (skf t) P0); try discriminate. reflexivity. Qed.
 
 (* a thread running alone from a quiet state processes exactly one whole message and leaves a quiet state *)
 Lemma whole_message s t : quiet s -> idx (th s t) < quota t ->
-  let s' := run sk quota s (repeat t (length sk + 4)) in
+  let s' := run skf quota s (repeat t (length (skf t) + 4)) in
   quiet s' /\ idx (th s' t) = S (idx (th s t)) /\ (forall t', t' <> t -> th s' t' = th s t') /\
   log s' = log s ++ [(t, idx (th s t), count s)] /\ count s' = S (count s) /\
   evs s' = evs s ++ [EEnter t (idx (th s t)); EDeliver t (idx (th s t)) (count s)].
 Proof.
   intros (Hq & HoL & HoM) Hlt s'. subst s'.
-  replace (length sk + 4) with ((length sk + 3) + 1) by lia. rewrite repeat_app, run_app.
+  replace (length (skf t) + 4) with ((length (skf t) + 3) + 1) by lia. rewrite repeat_app, run_app.
   destruct (Hq t) as [Hpc Hw].
-  pose proof (solo_suffix sk g quota t sk [] s false false eq_refl Hpc Hw Hlt (conj HoL HoM) Hsolo shape_fold) as H.
+  pose proof (solo_suffix skf g quota t (skf t) [] s false false eq_refl Hpc Hw Hlt (conj HoL HoM) (Hsolo t) (shape_fold t)) as H.
   cbv zeta in H. cbn [length emits phase_at firstn fold_left] in H.
-  set (s1 := run sk quota s (repeat t (length sk + 3))) in *.
+  set (s1 := run skf quota s (repeat t (length (skf t) + 3))) in *.
   destruct H as (A & B & C & [D1 D2] & E & F1 & F2 & F3).
-  assert (St : step sk quota s1 t = Some {| th := upd (th s1) t (mk_t 0 W0 (S (idx (th s1 t)))); owner := owner s1; count := count s1;
+  assert (St : step skf quota s1 t = Some {| th := upd (th s1) t (mk_t 0 W0 (S (idx (th s1 t)))); owner := owner s1; count := count s1;
                                              log := log s1; acq := acq s1; evs := evs s1 |}).
   { unfold step. replace (Nat.leb (quota t) (idx (th s1 t))) with false by (symmetry; apply Nat.leb_gt; lia).
-    replace (nth_error sk (pc (th s1 t))) with (@None instr) by (symmetry; apply nth_error_None; lia). reflexivity. }
+    replace (nth_error (skf t) (pc (th s1 t))) with (@None instr) by (symmetry; apply nth_error_None; lia). reflexivity. }
   cbn [repeat]. rewrite (run_cons _ _ _ _ _ _ St). unfold quiet. cbn [run th owner count log acq evs].
   split; [|split; [|split; [|split; [|split]]]].
   - split; [|split; assumption]. intros t'. destruct (Nat.eq_dec t' t) as [->|Hne].
@@ -791,8 +801,8 @@ Definition Rel (s : state) (a : astate) : Prop :=
   quiet s /\ a_in a = None /\ a_cnt a = count s /\ (forall t, a_next a t = idx (th s t)).
 
 Lemma realise : forall D s a a', Rel s a -> arun quota n a (paired D) = Some a' ->
-  Rel (run sk quota s (whole_msgs sk (map fst D))) a' /\
-  evs (run sk quota s (whole_msgs sk (map fst D))) = evs s ++ paired D.
+  Rel (run skf quota s (whole_msgs skf (map fst D))) a' /\
+  evs (run skf quota s (whole_msgs skf (map fst D))) = evs s ++ paired D.
 Proof.
   induction D as [|[[t i] sq] D IH]; intros s a a' R H.
   - cbn in H. injection H as <-. cbn. rewrite app_nil_r. split; [exact R|reflexivity].
@@ -806,8 +816,8 @@ Proof.
     destruct (Nat.eqb_spec sq (a_cnt a)) as [Es|]; [|discriminate].
     rewrite Hnext in Ei. subst i.
     destruct (whole_message s t Hq Hlt) as (Q2 & I2 & O2 & L2 & C2 & E2).
-    cbn [map fst whole_msgs flat_map]. change (flat_map _ (map fst D)) with (whole_msgs sk (map fst D)). rewrite run_app.
-    set (s2 := run sk quota s (repeat t (length sk + 4))) in *.
+    cbn [map fst whole_msgs flat_map]. change (flat_map _ (map fst D)) with (whole_msgs skf (map fst D)). rewrite run_app.
+    set (s2 := run skf quota s (repeat t (length (skf t) + 4))) in *.
     destruct (IH s2 {| a_in := None; a_cnt := S (a_cnt a); a_next := upd (a_next a) t (S (idx (th s t))) |} a') as [R' Ev'].
     + repeat split; try apply Q2; cbn [a_in a_cnt a_next]; [congruence|].
       intros t'. destruct (Nat.eq_dec t' t) as [->|Hne]; [rewrite upd_same; congruence|rewrite upd_other by exact Hne; rewrite (O2 t' Hne); apply Hnext].
@@ -820,7 +830,7 @@ Lemma s0_rel : Rel s0 a0. Proof. repeat split. Qed.
 (* every accepted trace IS the trace of a run of the model: the sequential schedule that executes the whole messages
    in delivery order *)
 Theorem accepted_is_model_trace_g tr : accept_conc quota n tr = true ->
-  let s := run sk quota s0 (whole_msgs sk (map fst (delivs tr))) in evs s = tr /\ finishedb n quota s = true.
+  let s := run skf quota s0 (whole_msgs skf (map fst (delivs tr))) in evs s = tr /\ finishedb n quota s = true.
 Proof.
   intros A s. pose proof (accept_alternates quota n tr A) as Et. unfold accept_conc in A.
   destruct (arun quota n a0 tr) as [a|] eqn:Ea; [|discriminate]. destruct (a_final_spec quota n a A) as [_ Hn].
@@ -833,25 +843,26 @@ End Realise.
 Lemma map_fst_serial o : map fst (serial_log o) = o.
 Proof. unfold serial_log. generalize 0. induction o as [|x o IH]; intros k; [reflexivity|]. cbn. rewrite IH. reflexivity. Qed.
 
-Theorem accepted_is_model_trace sk quota n tr : bracketed sk = true -> solo_ok sk = true ->
+Definition solo_family (skf : nat -> list instr) : Prop := forall t, solo_ok (skf t) = true.
+Theorem accepted_is_model_trace skf quota n tr : guard_of skf -> solo_family skf ->
   accept_conc quota n tr = true ->
-  let s := run sk quota s0 (whole_msgs sk (map fst (delivs tr))) in evs s = tr /\ finishedb n quota s = true.
-Proof. intros B So A. destruct (bracketed_guard sk B) as [g Hs]. exact (accepted_is_model_trace_g sk g quota n Hs So tr A). Qed.
+  let s := run skf quota s0 (whole_msgs skf (map fst (delivs tr))) in evs s = tr /\ finishedb n quota s = true.
+Proof. intros [g Hs] So A. exact (accepted_is_model_trace_g skf g quota n Hs So tr A). Qed.
 
 (* serialisability, schedule form: the sink log of ANY complete schedule is the sink log of the sequential schedule that
    runs the whole messages one after the other in the order in which the guarding mutex was acquired *)
-Theorem serialisable_schedule sk quota n : bracketed sk = true -> solo_ok sk = true -> threads_below n quota ->
-  forall sched, let s := run sk quota s0 sched in finishedb n quota s = true ->
-  exists g, shape g sk = true /\ log (run sk quota s0 (whole_msgs sk (acq_of g (acq s)))) = log s.
+Theorem serialisable_schedule skf quota n : guard_of skf -> solo_family skf -> threads_below n quota ->
+  forall sched, let s := run skf quota s0 sched in finishedb n quota s = true ->
+  exists g, (forall t, shape g (skf t) = true) /\ log (run skf quota s0 (whole_msgs skf (acq_of g (acq s)))) = log s.
 Proof.
-  intros B So Hq sched s F. destruct (serialisable sk quota n B Hq sched F) as (g & Hs & Hl). fold s in Hl.
+  intros B So Hq sched s F. destruct (serialisable skf quota n B Hq sched F) as (g & Hs & Hl). fold s in Hl.
   exists g. split; [exact Hs|].
-  destruct (trace_accepted sk quota n B Hq sched) as (_ & Hlog & Acc). fold s in Hlog, Acc. specialize (Acc F).
-  destruct (accepted_is_model_trace sk quota n (evs s) B So Acc) as [Ev _].
+  destruct (trace_accepted skf quota n B Hq sched) as (_ & Hlog & Acc). fold s in Hlog, Acc. specialize (Acc F).
+  destruct (accepted_is_model_trace skf quota n (evs s) B So Acc) as [Ev _].
   rewrite <- Hlog in Ev.
   assert (Eo : map fst (log s) = acq_of g (acq s)) by (rewrite Hl at 1; apply map_fst_serial).
   rewrite Eo in Ev.
-  destruct (trace_accepted sk quota n B Hq (whole_msgs sk (acq_of g (acq s)))) as (_ & Hlog' & _).
+  destruct (trace_accepted skf quota n B Hq (whole_msgs skf (acq_of g (acq s)))) as (_ & Hlog' & _).
   rewrite Hlog', Ev. symmetry. exact Hlog.
 Qed.
 
@@ -869,19 +880,42 @@ Proof.
       apply IH; [rewrite fold_left_app; exact Hr|exact Hn|rewrite app_length; cbn; lia].
 Qed.
 
-Theorem sink_exclusion sk quota n : sinks_guarded sk = true -> threads_below n quota ->
-  forall sched t1 t2, at_sink sk (run sk quota s0 sched) t1 = true -> at_sink sk (run sk quota s0 sched) t2 = true -> t1 = t2.
+(* every sink-touching instruction of every thread's skeleton lies in the critical section of one and the same mutex *)
+Definition sinks_guard_of (skf : nat -> list instr) : Prop := exists g, forall t, guarded_by g (skf t) = true.
+Theorem sink_exclusion skf quota n : sinks_guard_of skf -> threads_below n quota ->
+  forall sched t1 t2, at_sink skf (run skf quota s0 sched) t1 = true -> at_sink skf (run skf quota s0 sched) t2 = true -> t1 = t2.
 Proof.
-  intros G Hq sched t1 t2 H1 H2.
-  assert (exists g, shape g sk = true /\ flush_guarded_from g sk P0 = true) as (g & Hs & Hf).
-  { unfold sinks_guarded in G. apply orb_prop in G as [G|G]; apply andb_prop in G as [A B]; [exists L|exists M]; split; assumption. }
-  destruct (reach_inv sk g quota n Hs Hq (run sk quota s0 sched)) as [a I]; [exists sched; reflexivity|].
-  assert (Hold : forall t, at_sink sk (run sk quota s0 sched) t = true ->
-                           holding (phase_at g sk (pc (th (run sk quota s0 sched) t))) = true).
-  { intros t H. unfold at_sink in H. destruct (nth_error sk (pc (th (run sk quota s0 sched) t))) as [[m|m| | |]|] eqn:En; try discriminate.
-    - assert (E : phase_at g sk (pc (th (run sk quota s0 sched) t)) = P1).
-      { apply (work_phase g). rewrite <- (phase_S g sk _ _ En). apply phase_ok. exact Hs. }
+  intros [g G] Hq sched t1 t2 H1 H2.
+  assert (Hs : forall t, shape g (skf t) = true) by (intros t; specialize (G t); unfold guarded_by in G; apply andb_prop in G; apply G).
+  assert (Hf : forall t, flush_guarded_from g (skf t) P0 = true) by (intros t; specialize (G t); unfold guarded_by in G; apply andb_prop in G; apply G).
+  destruct (reach_inv skf g quota n Hs Hq (run skf quota s0 sched)) as [a I]; [exists sched; reflexivity|].
+  assert (Hold : forall t, at_sink skf (run skf quota s0 sched) t = true ->
+                           holding (phase_at g (skf t) (pc (th (run skf quota s0 sched) t))) = true).
+  { intros t H. unfold at_sink in H. destruct (nth_error (skf t) (pc (th (run skf quota s0 sched) t))) as [[m|m| | |]|] eqn:En; try discriminate.
+    - assert (E : phase_at g (skf t) (pc (th (run skf quota s0 sched) t)) = P1).
+      { apply (work_phase g). rewrite <- (phase_S g (skf t) _ _ En). apply phase_ok. apply Hs. }
       rewrite E. reflexivity.
-    - apply (flush_guarded_spec g sk [] Hf _ En). cbn. lia. }
-  apply (hold_unique sk g quota n (run sk quota s0 sched) a t1 t2 I (Hold t1 H1) (Hold t2 H2)).
+    - apply (flush_guarded_spec g (skf t) [] (Hf t) _ En). cbn. lia. }
+  apply (hold_unique skf g quota n (run skf quota s0 sched) a t1 t2 I (Hold t1 H1) (Hold t2 H2)).
+Qed.
+
+(* families: the skeletons the threads of one run may use *)
+Lemma uni_sinks_guard sk : sinks_guarded sk = true -> sinks_guard_of (uni sk).
+Proof.
+  unfold sinks_guarded. intros G. apply orb_prop in G as [G|G]; [exists L|exists M]; intros t; exact G.
+Qed.
+Lemma fam_sinks_guard sks skf : guarded_family sks = true -> (forall t, In (skf t) sks) -> sinks_guard_of skf.
+Proof.
+  unfold guarded_family. intros H A. apply orb_prop in H as [H|H]; [exists L|exists M]; intros t;
+    rewrite forallb_forall in H; apply H; apply A.
+Qed.
+Lemma uni_solo sk : solo_ok sk = true -> solo_family (uni sk).
+Proof. intros H t. exact H. Qed.
+Lemma fam_solo sks skf : forallb solo_ok sks = true -> (forall t, In (skf t) sks) -> solo_family skf.
+Proof. intros H A t. rewrite forallb_forall in H. apply H. apply A. Qed.
+Lemma fam_bracketed_of_guarded sks : guarded_family sks = true -> bracketed_family sks = true.
+Proof.
+  unfold guarded_family, bracketed_family. intros H. apply orb_prop in H as [H|H]; apply orb_true_intro; [left|right];
+    apply forallb_forall; intros sk Hin; rewrite forallb_forall in H; specialize (H sk Hin); unfold guarded_by in H;
+    apply andb_prop in H; apply H.
 Qed.
